@@ -165,6 +165,13 @@ func c15Run(o *out, input string) {
 		r.Header.Set("Content-Type", "application/grpc-web-text+proto")
 		web = true
 	}
+	if len(f) > 2 && f[2] == "d" {
+		// a server in front of the mux that bounds every request (here: far away); the nearer of the two deadlines is the
+		// handler's, and that is the call's own
+		dctx, dcancel := context.WithDeadline(r.Context(), time.Now().Add(1<<62))
+		defer dcancel()
+		r = r.WithContext(dctx)
+	}
 	r.Header["Grpc-Timeout"] = []string{val}
 	r.Header.Set("X-C15-Case", fmt.Sprint(e.caseID))
 	w := httptest.NewRecorder()
@@ -226,6 +233,10 @@ func c15Gen(o *out, r *rng, tier string) {
 		if nemit%5 == 3 {
 			o.count("proxied-backend/" + tag)
 			c15Run(o, "C15T "+hx([]byte(s))+" p")
+		}
+		if nemit%5 == 4 {
+			o.count("behind-a-server-deadline/" + tag)
+			c15Run(o, "C15T "+hx([]byte(s))+" d")
 		}
 		if nemit%5 == 2 {
 			o.count("grpc-web/" + tag)
